@@ -240,8 +240,8 @@ class C18(Check):
                 finished.append((h[0],) + self._finish_entry(h))
         finally:
             for h in handles:
-                if h[4] is not None and h[4].p.poll() is None:
-                    h[4].p.kill()
+                if h[4] is not None:
+                    h[4].kill()
                 h[2].cleanup()
         for entry, text, rc, extra, so, se in finished:
             if C.is_traceback(se) or C.is_traceback(so) or rc not in (0, 1):
